@@ -62,6 +62,24 @@ theorem eval_accumulateWithR (fb : String → G) (a b : Msm F G) (r : F)
     (a.accumulateWithR b r).eval fb = a.eval fb + r • b.eval fb := by
   rw [Msm.accumulateWithR, eval_addMsm fb _ _ ha, eval_scale]
 
+omit [AddCommGroup G] [Module F G] in
+/-- The off-circuit and the in-circuit accumulation step are the same function of the data. -/
+theorem accumulateWithROff_eq (a b : Msm F G) (r : F) : a.accumulateWithROff b r = a.accumulateWithR b r := by
+  simp only [Msm.accumulateWithROff, Msm.accumulateWithR, Msm.addMsm, Msm.scale, List.foldl_map]
+  congr 1
+  congr 1
+  funext acc ks
+  rw [mul_comm]
+
+omit [AddCommGroup G] [Module F G] in
+theorem accumulateLoop_eq (l : List (Acc F G × F)) : ∀ acc : Acc F G, accumulateLoop acc l = accumulateLoopIn acc l := by
+  induction l with
+  | nil => intro acc; rfl
+  | cons o t ih =>
+    intro acc
+    obtain ⟨o, ri⟩ := o
+    simp only [accumulateLoop, accumulateLoopIn, accumulateWithROff_eq, ih]
+
 theorem eval_collapse (fb : String → G) (m : Msm F G) : m.collapse.eval fb = m.eval fb := by
   simp [eval_eq, Msm.collapse, innerProduct_cons, innerProduct_nil_left]
 
@@ -85,7 +103,7 @@ theorem accumulateLoop_eval (fb : String → G) : ∀ (l : List (Acc F G × F)) 
       { lhs := acc.lhs.accumulateWithR o.lhs ri, rhs := acc.rhs.accumulateWithR o.rhs ri }
       (wf_accumulateWithR _ _ _ h1 ho.1) (wf_accumulateWithR _ _ _ h2 ho.2)
       (fun o' ho' => hl o' (by simp [ho']))
-    simp only [accumulateLoop, List.map_cons, List.sum_cons]
+    simp only [accumulateLoop, accumulateWithROff_eq, List.map_cons, List.sum_cons]
     rw [this.1, this.2, eval_accumulateWithR fb _ _ _ h1, eval_accumulateWithR fb _ _ _ h2]
     constructor <;> abel
 
